@@ -476,29 +476,54 @@ class Inliner:
 
     # -- generators --------------------------------------------------------------------------------------------------
     def comp_over_generator(self, fi, st: ast.stmt) -> Optional[list]:
-        """``v = [e for x in gen(...) if c]`` (gen a new generator helper)  ->  ``v = []`` ; ``for x in gen(...): if c: v.append(e)``"""
+        """``v = [e for x in it if c]`` where looking through a new helper needs statements -- ``it`` is a call of a new generator
+        helper, or ``e`` / ``c`` call a new helper that is not a single expression  ->  ``v = []`` ; ``for x in it: if c: v.append(e)``
+        (likewise for a returned comprehension, through a fresh local)"""
+        ret = False
         if isinstance(st, ast.AnnAssign) and st.value is not None and isinstance(st.target, ast.Name):
-            tgt, val = st.target, st.value
+            tgt_id, val = st.target.id, st.value
         elif isinstance(st, ast.Assign) and len(st.targets) == 1 and isinstance(st.targets[0], ast.Name):
-            tgt, val = st.targets[0], st.value
+            tgt_id, val = st.targets[0].id, st.value
+        elif isinstance(st, ast.Return) and st.value is not None:
+            self.counter += 1
+            tgt_id, val, ret = f"_piece__c{self.counter}", st.value, True
         else:
             return None
-        if not (isinstance(val, ast.ListComp) and len(val.generators) == 1 and isinstance(val.generators[0].iter, ast.Call)
-                and self._callee(fi, val.generators[0].iter, generator=True) is not None):
+        if not (isinstance(val, ast.ListComp) and len(val.generators) == 1 and not val.generators[0].is_async):
             return None
         g = val.generators[0]
-        if any(isinstance(x, ast.Name) and x.id == tgt.id for x in ast.walk(val)):
+        over_gen = isinstance(g.iter, ast.Call) and self._callee(fi, g.iter, generator=True) is not None
+
+        def needs_statements(e):
+            for c in ast.walk(e):
+                if isinstance(c, ast.Call):
+                    h = self._callee(fi, c)
+                    if h is not None and _expr_form(h) is None and _stmt_form(h) is not None and _bind(h, c, self._receiver(c)) is not None:
+                        return True
+            return False
+        if not over_gen and not needs_statements(val.elt) and not any(needs_statements(c) for c in g.ifs):
             return None
-        app: ast.stmt = ast.Expr(value=ast.Call(func=ast.Attribute(value=ast.Name(id=tgt.id, ctx=ast.Load()), attr="append", ctx=ast.Load()),
+        if any(isinstance(x, ast.Name) and x.id == tgt_id for x in ast.walk(val)):
+            return None
+        # the comprehension's variables become locals of the function: they must not be names it already uses
+        bound = {x.id for x in ast.walk(g.target) if isinstance(x, ast.Name)}
+        inside = {id(x) for x in ast.walk(val)}
+        for nested in ast.walk(fi.node):       # nested functions have names of their own
+            if nested is not fi.node and isinstance(nested, (ast.FunctionDef, ast.AsyncFunctionDef, ast.Lambda)):
+                inside |= {id(x) for x in ast.walk(nested)}
+        if any(isinstance(x, ast.Name) and x.id in bound and id(x) not in inside for x in ast.walk(fi.node)):
+            return None
+        app: ast.stmt = ast.Expr(value=ast.Call(func=ast.Attribute(value=ast.Name(id=tgt_id, ctx=ast.Load()), attr="append", ctx=ast.Load()),
                                                args=[val.elt], keywords=[]))
         for c in reversed(g.ifs):
             app = ast.If(test=c, body=[app], orelse=[])
-        init = ast.Assign(targets=[ast.Name(id=tgt.id, ctx=ast.Store())], value=ast.List(elts=[], ctx=ast.Load()), lineno=st.lineno)
+        init = ast.Assign(targets=[ast.Name(id=tgt_id, ctx=ast.Store())], value=ast.List(elts=[], ctx=ast.Load()), lineno=st.lineno)
         loop = ast.For(target=g.target, iter=g.iter, body=[app], orelse=[], lineno=st.lineno)
-        for s_ in (init, loop):
+        out = [init, loop] + ([ast.Return(value=ast.Name(id=tgt_id, ctx=ast.Load()))] if ret else [])
+        for s_ in out:
             ast.copy_location(s_, st)
             ast.fix_missing_locations(s_)
-        return [init, loop]
+        return out
 
     def gen_inline(self, fi, st: ast.stmt) -> Optional[list]:
         """``for x in gen(args): BODY`` with gen a new generator helper whose yields are plain ``yield e`` statements: the
@@ -774,6 +799,13 @@ def inline_new_helpers(model, reference: set) -> dict:
         if h.where in inl.inlined_sites and h.where not in still_called:
             h.absorbed = True
             absorbed.append(h.where)
+            # a nested helper that was absorbed leaves no 'def' behind in its parent (unless its name is still mentioned)
+            if h.parent is not None and not any(isinstance(x, ast.Name) and x.id == h.name for x in ast.walk(h.parent.node)):
+                for blk_owner in ast.walk(h.parent.node):
+                    for fld in ("body", "orelse", "finalbody"):
+                        b = getattr(blk_owner, fld, None)
+                        if isinstance(b, list) and any(x is h.node for x in b):
+                            b[:] = [x for x in b if x is not h.node] or [ast.copy_location(ast.Pass(), h.node)]
     return {"new_helpers": sorted(h.where for h in new_helpers), "inlined": dict(inl.inlined_sites), "absorbed": absorbed}
 
 
